@@ -36,6 +36,7 @@ class LMFWarning(Warning):
 SUPPORTED_VERSIONS = {'1.0', '1.1', '1.2', '1.3'}
 _XMLDECL = b'<?xml version="1.0" encoding="UTF-8"?>'
 _XMLSPACEATTR = 'http://www.w3.org/XML/1998/namespace space'  # xml:space
+_XML_WHITESPACE = re.compile(r'[ \t\r\n]+')
 _DOCTYPE = '<!DOCTYPE LexicalResource SYSTEM "{schema}">'
 _SCHEMAS = {
     '1.0': 'http://globalwordnet.github.io/schemas/WN-LMF-1.0.dtd',
@@ -549,7 +550,9 @@ def _make_parser(root, version, progress):  # noqa: C901
         elem = stack.pop()
         # normalize whitespace unless xml:space=preserve
         if 'text' in elem and elem.get(_XMLSPACEATTR, '') != 'preserve':
-            elem['text'] = ' '.join(elem['text'].split())
+            # only XML whitespace is normalized; characters such as
+            # no-break or ideographic spaces are content
+            elem['text'] = _XML_WHITESPACE.sub(' ', elem['text']).strip(' ')
         progress.update(force=(name == 'LexicalResource'))
 
     p.StartElementHandler = start
